@@ -493,6 +493,10 @@ class Decompressor:
             msg = f"Decompressing track data from [{archive_path}] to [{documents_path}] ... "
 
         console.info(msg, end="", flush=True, logger=self.logger)
+        # An offset table that belongs to an earlier version of the document file must not outlive it: extraction from tar
+        # archives restores the (old) modification time of the archive member, so the old table would still look up-to-date.
+        if io.FileOffsetTable.create_for_data_file(documents_path).exists():
+            io.remove_file_offset_table(documents_path)
         io.decompress(archive_path, io.dirname(archive_path))
         console.println("[OK]")
         if not os.path.isfile(documents_path):
